@@ -38,7 +38,8 @@ def cases(rng, tier):
             elif r < 0.55:
                 instrs.append({"name": "qpd", "gate": rng.choice(["cx", "rzz", "cz", "crx", "swap"]), "qubits": rng.sample(range(n), 2)})
             else:
-                g = rng.choice(["cx", "rzz", "cz", "unitary2", "ch", "cry"])
+                # incl. rotations at angles where some map probabilities are tiny but not zero (3.7e-33, 6.1e-17)
+                g = rng.choice(["cx", "rzz", "cz", "unitary2", "ch", "cry", "rzz_pi", "crz_2pi"])
                 instrs.append({"name": g, "qubits": rng.sample(range(n), 2)})
         labs = [rng.choice("AB") for _ in range(n)]
         if len(set(labs)) == 1:
@@ -60,6 +61,12 @@ def _op(ins):
         return UnitaryGate(random_unitary(4, seed=7))
     if nm in ("rzz", "cry"):
         return canon.mk_op(nm, [0.4])
+    if nm == "rzz_pi":
+        import math
+        return canon.mk_op("rzz", [math.pi])
+    if nm == "crz_2pi":
+        import math
+        return canon.mk_op("crz", [2 * math.pi])
     return canon.mk_op(nm, ins.get("params", ()))
 
 
